@@ -38,18 +38,21 @@ MODELLED_NOT_VERIFIED = [
 ]
 EXPLANATION = ("Theorems about the fuelled heap model of Annotable.__deepcopy__ / Taxon / TaxonNamespace / AnnotationSet copying "
                "with deep_copy_annotations_from and its re-targeting, for every heap (cycles allowed) and every pre-seeded memo: "
-               "copy_total / route_total (fuel sufficiency: on a well-formed exported heap the copy and the driver's copyRoute return "
-               "ok, so all other theorems apply unconditionally; the harness checks well-formedness of every exported heap), "
-               "copy_iso_partial / copy_root_corresponds (equality, object level: every non-pre-seeded memo entry pairs a source "
-               "object with a copy of the same class and kind whose attributes are exactly the memo-images of the source's, none left "
-               "half-built), copy_fresh, copy_memo_injective, copy_no_write (+ _deep, _scoped), copy_disjoint / "
-               "copy_shares_only_preseeded / deep_copy_shares_nothing, frame_source_write / frame_copy_write, frame_source_history / "
-               "frame_copy_history (every sequence of later overwrites and allocations on one side leaves the other side unchanged), "
-               "fuel_mono / fuel_result_unique, route_spec / route_no_write / route_shares_only_preseeded (about the function the driver "
-               "runs), extract_leaves, extract_suppresses, extract_nosup_attrs, extract_sup_labels. PARTIAL: copy_iso_partial says "
-               "nothing about the membership and order of annotation sets nor about attribute order (covered by the per-case "
-               "comparison with the real copy and the fingerprint oracle); retarget_step_partial is about the re-targeting step, not "
-               "the final state; copy_independent_partial is the older bundle. Length sums under suppression: oracle only.")
+               "copy_total / route_total (on a well-formed exported heap the copy and the driver's copyRoute return ok; the harness "
+               "checks well-formedness of every exported heap and reports a heap outside the hypotheses), copy_iso_partial / "
+               "route_iso_partial / copy_root_corresponds (equality at object level: every memo entry that was not pre-seeded pairs a "
+               "source object with a copy of the same class and kind whose attributes are exactly the memo-images of the source's, "
+               "none left half-built), copy_fresh, copy_memo_injective, copy_no_write (+ _deep, _scoped), copy_disjoint / "
+               "copy_shares_only_preseeded / deep_copy_shares_nothing, frame_interleaved_history (any interleaving of later "
+               "source-side and copy-side overwrites and allocations: each side ends as if the other side's writes had not happened), "
+               "frame_source_history, frame_source_write / frame_copy_write, fuel_mono / fuel_result_unique, route_spec / "
+               "route_no_write / route_shares_only_preseeded, extract_leaves, extract_suppresses, extract_nosup_attrs, "
+               "extract_sup_labels, extract_sup_pathsums (root-to-leaf length sums survive suppression). NOT PROVED (correspondence "
+               "and oracle only): membership and order of annotation sets, attribute order, functionality of the memo "
+               "(copy_iso_partial); the final-state form of 'bound annotations of the copy are bound to the copy' "
+               "(retarget_step_partial is one step); the label match of the other-namespace pre-seeding (computed by the harness); "
+               "shallow routes (never sent to the model). frame_copy_history and the one-step corollaries carry no content beyond "
+               "copy_no_write*.")
 
 # ---------------------------------------------------------------------------------------------------------------------
 # object graph export (the REAL graph: every __dict__ attribute, list, dict, set, tuple), ids renumbered
@@ -210,12 +213,15 @@ def canon(objs, rootval, n_old):
                 continue
             stack.extend(reversed([x for name, x in sorted(fs) if name not in CANON_DROP]))
 
-    def skey(v):
-        # structural key of a set element (never its position in the set, which is hash order)
+    def skey(v, depth=3):
+        # structural key of a set element (never its position in the set, which is hash order): class, atom fields and,
+        # three levels deep, the keys of the referenced objects - ties remain only between structurally equal elements
         if v[0] == "a":
             return ("a", v[1], ())
         kind, cls, fs = objs[v[1]]
-        return ("r", cls, tuple(sorted((n, x[1]) for n, x in fs if x[0] == "a")))
+        if depth == 0:
+            return ("r", cls, ())
+        return ("r", cls, tuple(sorted((n, skey(x, depth - 1)) for n, x in fs)))
 
     visit(rootval)
     k = 0
@@ -1240,8 +1246,9 @@ def run_case(ctx, dendropy, spec, pending=None, report=True):
         src_objs = list(g.objs)
         wfp = wellformed_problem(src_objs)
         if wfp is not None:
+            # the theorems (copy_total, copy_iso_partial, ...) do not speak about this input: the property is not shown for it
             ctx.count("exported_heap_not_wellformed")
-            ctx.note("exported heap outside the hypotheses of copy_total/copy_iso_partial (%s): %s" % (wfp, json.dumps(spec)))
+            ctx.disagree("wellformed", spec, "exported heap outside the hypotheses of the theorems: %s" % wfp, "-")
         else:
             ctx.count("exported_heap_wellformed")
         g_ns, _ = export(dendropy, [ns_src])
@@ -1361,6 +1368,18 @@ def run_case(ctx, dendropy, spec, pending=None, report=True):
         if objkind == "ns" and [id(t) for t in cp._taxa] != [id(t) for t in src._taxa]:
             fail("shallow-members", "TaxonNamespace copy does not hold the same Taxon objects in the same order")
 
+    # ---- state objects of discrete matrices are the alphabet's own StateIdentity objects (exported as atoms by symbol):
+    #      the copy must hold the very same objects cell by cell, not look-alikes
+    if objkind == "matrix" and type(src).__name__ != "ContinuousCharacterMatrix":
+        for (t1, s1), (t2, s2) in zip(src._taxon_sequence_map.items(), cp._taxon_sequence_map.items()):
+            if len(s1._character_values) == len(s2._character_values) and any(
+                    a is not b for a, b in zip(s1._character_values, s2._character_values)):
+                fail("state-identity", "a cell of the copy holds another state object than the source's cell (row %r)" % t1._label)
+                break
+        if not shallow and getattr(src, "default_state_alphabet", None) is not getattr(cp, "default_state_alphabet", None):
+            fail("state-identity", "the copy refers to another state alphabet object than its source (its cells hold the "
+                                   "source alphabet's states)", matrix_type=type(src).__name__)
+
     # ---- equality of structure, labels, lengths, rooting, annotations, sequences
     try:
         fp_cp = J(view(cp, with_ns=(rclass != "migrate")))
@@ -1459,7 +1478,7 @@ def bound_follow(dendropy, src, cp, fresh):
     src_ids = set(okey(o) for o in gs.keep)
     anns = [o for o in g.keep if type(o).__name__ == "Annotation" and o.__dict__.get("is_attribute") is True and okey(o) not in src_ids]
     src_anns = [o for o in gs.keep if type(o).__name__ == "Annotation" and o.__dict__.get("is_attribute") is True]
-    for a in anns[:12]:
+    for a in anns[:60]:
         owner, attr = a._value
         if okey(owner) in src_ids:
             continue   # shared owner (a taxon of a namespace-scoped copy) or reported already
@@ -1607,7 +1626,7 @@ def gen_spec(rng, quick):
 def run(ctx):
     dendropy = __import__("dendropy")
     rng = ctx.rng
-    ctx.set_budget(38, 600)
+    ctx.set_budget(35, 600)
     pending = []
     quick = ctx.tier != "thorough"
     # the recursion-depth probe (known-finding candidate): a caterpillar deeper than the interpreter can deep-copy
@@ -1643,7 +1662,7 @@ def run(ctx):
 def replay(ctx, rec):
     dendropy = __import__("dendropy")
     spec = dict(rec["replay"])
-    for k in ("exception", "depth_class", "ops"):
+    for k in ("exception", "depth_class", "ops", "matrix_type"):
         spec.pop(k, None)
     if spec.get("obj") == "caterpillar" and spec.get("depth_rule") == "limit//2":
         spec["depth"] = sys.getrecursionlimit() // 2
